@@ -244,6 +244,7 @@ impl TlsWorld {
         }
     }
     fn tick(&mut self) {
+        crate::core::beat();
         self.clock.set(self.clock.get() + 1);
         self.nops += 1;
     }
